@@ -823,6 +823,21 @@ impl OrdSpecImpl for Version { open spec fn obeys_cmp_spec() -> bool { true } op
         g.rec(sl, 'Range::parse_str', mod, 'fn', dropped='generic AsRef<str> entry (R15), the payload of the errors (R16)')
         g.emit(mod, head + '    {\n        broadcast use winnow_defs, grammar_defs, def_range_set_reads_intro;\n        let mut input = text;' + rest + '\n}\n')
     g.unit('Range::parse_str', u_range_parse)
+
+    # FromStr (the README's and serde's way in): lifted (R9), `X::parse(s)` is the renamed `X::parse_str(s)` (R15)
+    def fromstr_unit(ty, src, contract):
+        def u():
+            sl = fn_in_impl(src, r'^impl std::str::FromStr for %s \{' % ty, 'from_str', '%s::from_str (FromStr)' % ty)
+            if '%s::parse(s)' % ty not in sl.text:
+                raise AnchorLost('%s::from_str: `%s::parse(s)`' % (ty, ty))
+            sl.text = sl.text.replace('%s::parse(s)' % ty, '%s::parse_str(s)' % ty).replace('fn from_str(s: &str) -> Result<Self, Self::Err>', "fn from_str_lifted<'s>(s: &'s str) -> Result<%s, SemverError>" % ty)
+            sl.rewrites += ['R9 trait method body lifted to inherent fn from_str_lifted', 'R15 `parse` is `parse_str`']
+            mod = 'm_vg_fromstr_' + ty.lower()
+            g.private_mods.add(mod)
+            g.emit(mod, 'use crate::m_vg_%s::*;\nimpl %s {\n' % ('parse' if ty == 'Version' else 'rparse', ty) + g.inj(sl, '%s::from_str_lifted' % ty, mod, dict(ret='r', contract=contract), make_pub=True) + '\n}')
+        g.unit('%s::from_str_lifted' % ty, u)
+    fromstr_unit('Version', LIB, '        ensures parse_post(s, r),  // @Version::from_str#is-parse')
+    fromstr_unit('Range', RNG, '        ensures (r is Ok ==> range_set_reads(s, r->Ok_0)), (r is Err ==> range_set_rej(s)),  // @Range::from_str#is-parse')
     g.emit('m_vprops', P('vprops.rs'))
     g.emit('m_rprops', P('rprops.rs'))
     g.emit('m_vprops', P('vcomplete.rs'))
